@@ -20,7 +20,7 @@ import (
 	"verifharness/emit"
 )
 
-func lvTerm(x lv) string { return emit.Pair(x.loc, emit.Nat(x.val)) }
+func lvTerm(x lv) string { return emit.Pair(x.Loc, emit.Nat(x.Val)) }
 
 func lvList(xs []lv) string {
 	items := make([]string, len(xs))
@@ -38,7 +38,8 @@ func randCfg(r drv.Rand) worldCfg {
 		c.timeout[i] = r.Chance(1, 3)
 	}
 	if r.Chance(1, 4) {
-		c.userEp = 1 + r.IntN(9)
+		// not ECheckSession: the LegacyServer discovery document never carries check_session_iframe (not a C20 matter)
+		c.userEp = drv.Pick(r, []int{1, 2, 3, 4, 5, 6, 8, 9})
 	}
 	c.spare = r.Chance(2, 3)
 	c.cfgStyle = r.IntN(3)
@@ -165,7 +166,7 @@ func runSnap(w *emit.Writer, sc snapCase) {
 	var ch []lv
 	if p == "" {
 		for j := range before {
-			if before[j].val != after[j].val {
+			if before[j].Val != after[j].Val {
 				ch = append(ch, after[j])
 			}
 		}
@@ -332,7 +333,7 @@ func main() {
 	idw = newWorld(worldCfg{})
 	restorePristine()
 	w := emit.NewWriter(cfg.Out, "C20_spec", 0, cfg.Only)
-	nSnap := cfg.Count(208, 3200)
+	nSnap := cfg.Count(640, 6400)
 	nOrder := nSnap / 4
 	for n := 0; n < nSnap; n++ {
 		runSnap(w, genSnap(r, n))
